@@ -173,7 +173,17 @@ def rule_hash_vs_make(ctx):
         for tgl in full:
             if tgl[0] == "piece":
                 b, off = FX.base_name_sq(tgl[3])
-                got_p.append(("piece", tgl[1], tgl[2], (b, off)))
+                pc = tgl[2]
+                # what the path has established about the move is applied to both sides: a getter known to equal a
+                # constant is that constant, the squares of a castling move are those of its kind
+                if pc[0] == "getter" and pc[1] in eqs:
+                    pc = ("const", eqs[pc[1]])
+                if cls[0] == "castle":
+                    if b == "get_target_square":
+                        b, off = None, cls[1] + off
+                    elif b == "get_source_square":
+                        b, off = None, src_of.get(cls[1], -99) + off
+                got_p.append(("piece", tgl[1], pc, (b, off)))
         ok_piece = sorted(exp, key=repr) == sorted(got_p, key=repr)
         others = sorted((tgl for tgl in full if tgl[0] != "piece"), key=repr)
         exp_o = [("side",)]
